@@ -193,10 +193,12 @@ ObjsFor(s, t0) == LET t == Base(t0) IN
 \*   body     = client-id fields inside the JSON body (target_client_id of the tunnel request, and client_id /
 \*              listen_client_id / sender_client_id / owner_client_id / user_id on every request)
 \*   "own" = the caller's id, "victim" = another party, "third" = a client that is neither
-\* (with the plain authentication states of c1: the others differ from them only in the handshake history)
-ClaimPairs(s, t) == IF Emit /\ Policy[t].need /\ s.wv = "base" /\ cn.pend = None /\ ~cn.failed
+\* (with the plain authentication states of c1 - never authenticated, or authenticated as A / B / C by a control
+\* handshake: the other states differ from these only in the handshake history, which the base matrix covers)
+PlainState == cn.pend = None /\ ~cn.failed /\ cn.typ # "tunnel"
+ClaimPairs(s, t) == IF Emit /\ Policy[t].need /\ s.wv = "base" /\ PlainState
                     THEN {<<"absent", "absent">>, <<"own", "absent">>, <<"victim", "absent">>,
-                          <<"absent", "own">>, <<"absent", "third">>, <<"absent", "victim">>, <<"victim", "victim">>}
+                          <<"absent", "own">>, <<"absent", "third">>, <<"absent", "victim">>}
                     ELSE {<<"absent", "absent">>}
 
 \* one command = row x packet type x object x variant [cl, bf, cid, flt]:
@@ -238,7 +240,7 @@ P2(X, r, t) ==
 \* another client (online on its own control connection) sends a command of type ty with command id X and is
 \* answered; the actor's next command of that type carries the same id
 Prime(ty, obj) ==
-  /\ cn.alive /\ ncmd = 0 /\ primed = <<>> /\ cn.pend = None /\ ~cn.failed /\ st.wv = "base"
+  /\ cn.alive /\ ncmd = 0 /\ primed = <<>> /\ PlainState /\ st.wv = "base"
   /\ Policy[ty].need /\ ~IsResp(ty) /\ ctl[Primer(ty)] = "v"
   /\ ~(ty = "ConnectionCodeGenerate" /\ Primer(ty) \in st.gen) /\ ~(ty = "HTTPDomainCreate" /\ st.d2 # None)
   /\ LET a == Primer(ty)
@@ -253,7 +255,7 @@ Prime(ty, obj) ==
 Cmd(ty, pt, v, obj) ==
   /\ cn.alive /\ ncmd < MaxCmds
   /\ primed # <<>> => ty = primed[1]
-  /\ (Emit /\ st.wv # "base") => cn.pend = None /\ ~cn.failed     \* world variants: with the plain authentication states
+  /\ (Emit /\ st.wv # "base") => PlainState /\ Policy[ty].need   \* world variants: plain authentication states, rows with a demand
   /\ ~(ty = "ConnectionCodeGenerate" /\ cn.auth \in st.gen)
   /\ ~(ty = "HTTPDomainCreate" /\ st.d2 # None)
   /\ LET r == Outcome(st, cn.auth, cn.reg, ty, obj, v.flt)
